@@ -242,21 +242,35 @@ type monPlugin struct {
 	gotRID             netip.Addr
 	gotCaps            []Capability
 	yieldInCallbacks   bool
+	kinds              []bool
 }
 
 func newMonPlugin() *monPlugin { return &monPlugin{handlerNotifAt: -1} }
 
+// overlap is monitored among the session callbacks (OnEstablished, OnClose, update handler): these must
+// never run concurrently. GetCapabilities / OnOpenMessage belong to a connection, not to the session, and
+// may legitimately run on the other connection's FSM goroutine at the same time.
 func (m *monPlugin) enter(kind int) {
 	m.events = append(m.events, pevent{kind, verifGID()})
-	if m.active != 0 {
-		m.overlap = true
+	sess := kind == evOnEstablished || kind == evOnClose || kind == evHandler
+	if sess {
+		if m.active != 0 {
+			m.overlap = true
+		}
+		m.active++
 	}
-	m.active++
+	m.kinds = append(m.kinds, sess)
 	if m.yieldInCallbacks {
 		verifYield()
 	}
 }
-func (m *monPlugin) leave() { m.active-- }
+func (m *monPlugin) leave() {
+	k := m.kinds[len(m.kinds)-1]
+	m.kinds = m.kinds[:len(m.kinds)-1]
+	if k {
+		m.active--
+	}
+}
 
 func (m *monPlugin) GetCapabilities(PeerConfig) []Capability {
 	m.enter(evGetCaps)
